@@ -79,6 +79,8 @@ fn dispatch<P: Property>(cli: &Cli) -> i32 {
 fn main() {
     let cli = parse();
     let code = match cli.prop.as_str() {
+        "C05" => dispatch::<props::c05::C05>(&cli),
+        "C06" => dispatch::<props::c06::C06>(&cli),
         "C07" => dispatch::<props::c07::C07>(&cli),
         "C08" => dispatch::<props::c08::C08>(&cli),
         "C09" => dispatch::<props::c09::C09>(&cli),
